@@ -37,6 +37,7 @@ def cmd_check(prop, tier):
     t0 = _real_time()
     print("VERIF_SEED=%d property=%s tier=%s repo=%s" % (seed, prop, tier, env.REPO), flush=True)
     fingerprint = env.repo_fingerprint()
+    env.cleanup_stale()
     try:
         rc = mod.check(tier, seed, fingerprint, t0)
     except batch_harness_errors() as e:
